@@ -48,4 +48,13 @@ def hankDatOfR (R : Mat K) (nref p : Nat) : Mat K :=
   let Rt := transpose R
   ⟨Rt.r - nref * (p + 1), nref * (p + 1), fun i j => Rt.e (nref * (p + 1) + i) j⟩
 
+/-- `Hank = R21[n_ref*(p+1):, :n_ref*(p+1)]`, `R21 = R.T`, **with numpy's slice clipping**: `R` (the
+    `mode="r"` factor of `Ys.T`, passed in) has `k = min(N-1, (r+l)(p+1))` rows, so `R.T` has `k`
+    columns and the column slice `:a` keeps `min(a, k)` of them (records with fewer than `a = r(p+1)`
+    columns in the data matrix return a NARROWER matrix); the row slice `a:` keeps `R.c - a` rows.
+    Same entries as `hankDatOfR`, which hard-wires `a` columns (equal whenever `a ≤ R.r`). -/
+def hankDat (R : Mat K) (nref p : Nat) : Mat K :=
+  let Rt := transpose R
+  ⟨Rt.r - nref * (p + 1), min (nref * (p + 1)) Rt.c, fun i j => Rt.e (nref * (p + 1) + i) j⟩
+
 end PV
